@@ -242,7 +242,8 @@ def _run_chunk(args):
     cmd, env, lines = args
     e = dict(os.environ)
     e.update(env)
-    p = subprocess.run(cmd, input=("\n".join(lines) + "\n").encode(), stdout=subprocess.PIPE, stderr=subprocess.PIPE, env=e, timeout=3000)
+    cwd = e.pop("VERIF_CWD", None)
+    p = subprocess.run(cmd, input=("\n".join(lines) + "\n").encode(), stdout=subprocess.PIPE, stderr=subprocess.PIPE, env=e, timeout=3000, cwd=cwd)
     out = p.stdout.decode().split("\n")
     if out and out[-1] == "":
         out.pop()
